@@ -141,6 +141,10 @@ class Polylist(primitive.Primitive):
         self.nindices = max_offset + 1
         self.vcounts = vcounts
         self.sources = sources
+        if self.index.size % self.nindices != 0:
+            raise DaeMalformedError(
+                'Index of a polylist with %d entries is not a multiple of its %d inputs'
+                % (self.index.size, self.nindices))
         self.index.shape = (-1, self.nindices)
         self.npolygons = len(self.vcounts)
         self.nvertices = numpy.sum(self.vcounts) if len(self.index) > 0 else 0
